@@ -113,6 +113,13 @@ fn main() {
             eprintln!("unknown property {prop}");
             code = 3;
         }
+        Err(payload) if payload.downcast_ref::<world::QueryRefused>().is_some() => {
+            // a query that must always be answered was refused: a violation, not a harness error
+            let q = payload.downcast_ref::<world::QueryRefused>().unwrap();
+            let (hist, step) = (rep.cur_hist, rep.trace.len());
+            rep.violation(&format!("{prop}/query/{}/refused", q.what), format!("{} was refused in history {hist} after step {step}: {}", q.what, q.err));
+            j = rep.to_json(wall);
+        }
         Err(_) => {
             let msg = LAST_PANIC.with(|l| l.borrow().clone());
             eprintln!("harness error in {prop} shard {}: {msg}", cfg.shard);
